@@ -208,7 +208,7 @@ func checkC15(p *pue, c *c15Case, r *vstat.Run) outcome {
 		err error
 	}
 	results := map[string]res{}
-	entries := []string{"string", "bytes", "reader", "slowreader", "onebyte"}
+	entries := []string{"string", "bytes", "reader", "slowreader", "onebyte", "dataerr"}
 	var pm string
 	for _, e := range entries {
 		e := e
